@@ -140,6 +140,9 @@ func (i *IPv6) UnmarshalBinary(data []byte) error {
 	nxtHeader := i.NextHeader
 checkXHeader:
 	for checkExtHeader {
+		if n > len(data) {
+			return errors.New("The []byte is too short to unmarshal the IPv6 extension headers.")
+		}
 		switch nxtHeader {
 		case Type_HBH:
 			checkExtHeader = true
@@ -178,6 +181,9 @@ checkXHeader:
 			i.Data = new(util.Buffer)
 			break checkXHeader
 		}
+	}
+	if n > len(data) {
+		return errors.New("The []byte is too short to unmarshal the IPv6 payload.")
 	}
 	return i.Data.UnmarshalBinary(data[n:])
 }
